@@ -26,8 +26,8 @@ def field_variants(value, rng):
             out += [value.astimezone(dateutil.tz.tzoffset(None, 19800)), value.astimezone(dateutil.tz.tzoffset(None, -3600))]
         return out
     if isinstance(value, datetime.timedelta):
-        return [datetime.timedelta(0), datetime.timedelta(seconds=1), value + datetime.timedelta(seconds=1)]
-    if isinstance(value, (list, tuple)):
+        return [datetime.timedelta(0), datetime.timedelta(seconds=1), value + datetime.timedelta(seconds=1), value + datetime.timedelta(days=1), value + datetime.timedelta(days=365)]
+    if isinstance(value, (list, tuple)) and type(value) in (list, tuple):
         t = type(value)
         return [t(), t(value[:1]), t(list(value) + list(value[:1])), t(reversed(value))]
     if hasattr(value, '_items') and hasattr(value, 'get_param'):      # protocol vectors
